@@ -355,6 +355,7 @@ func Main(t *testing.T, p *Property) {
 		}
 		p.Scenarios = keep
 	}
+	progress := os.Getenv("VERIF_PROGRESS") != ""
 	fps := map[uint64]struct{}{}
 	var acc uint64 = 1469598103934665603
 	deadline := start.Add(time.Duration(cfg.BudgetS * float64(time.Second)))
@@ -383,6 +384,9 @@ func Main(t *testing.T, p *Property) {
 		}
 		sc := p.pick(run)
 		seed := runSeed(cfg.Seed, run)
+		if progress {
+			fmt.Fprintf(os.Stderr, "PROGRESS run=%d scenario=%s\n", run, sc.Name)
+		}
 		tp := tape.New(seed)
 		c := RunOne(t, sc, tp, cfg.Tier, false)
 		if first {
@@ -654,6 +658,9 @@ func replay(t *testing.T, p *Property, cfg *WorkerCfg, out *WorkerOut) {
 	if c.Infra != "" {
 		out.Infra = c.Infra
 		return
+	}
+	if cj, err := json.Marshal(c.Config); err == nil {
+		fmt.Println("CONFIG", string(cj))
 	}
 	for _, l := range c.Log {
 		fmt.Println("TRACE", l)
